@@ -12,7 +12,7 @@ from apischema import (ValidationError, alias, deserialize, deserializer, order,
                        settings, type_name, validator, dependent_required)
 from apischema.conversions import reset_deserializers, reset_serializer
 from apischema.json_schema import deserialization_schema, serialization_schema
-from apischema.objects import ObjectField, set_object_fields
+from apischema.objects import ObjectField, object_fields, set_object_fields
 
 
 @dataclass
@@ -51,6 +51,12 @@ class Rounded:
 
     def __init__(self, r: float = 0.0):
         self.r = float(round(r))
+
+
+class View:
+    """its fields are given lazily, as the fields of P minus one: what they are depends on the configuration of P"""
+    def __init__(self, **kwargs):
+        self.__dict__.update(kwargs)
 
 
 NT = NewType("NT", int)
@@ -109,6 +115,10 @@ def op(name, *args):
         set_object_fields(Node, [ObjectField("v", int, False, default=0)])
     elif name == "unset_fields_Node":
         set_object_fields(Node, None)
+    elif name == "set_fields_View_lazy":
+        set_object_fields(View, lambda: [f for f in object_fields(P).values() if f.name != "some_name"])
+    elif name == "unset_fields_View":
+        set_object_fields(View, None)
     elif name == "type_name_P":
         type_name(args[0])(P)
     elif name == "schema_NT":
@@ -145,6 +155,8 @@ def op(name, *args):
 def canon(x):
     if isinstance(x, Opaque):
         return {"__opaque__": x.v}
+    if isinstance(x, View):
+        return {"__view__": {k: canon(v) for k, v in sorted(x.__dict__.items())}}
     if hasattr(x, "__dataclass_fields__"):
         return {"__cls__": type(x).__name__, **{k: canon(getattr(x, k)) for k in x.__dataclass_fields__}}
     if isinstance(x, (list, tuple)):
@@ -154,9 +166,9 @@ def canon(x):
     return x
 
 
-TYPES = {"Node": Node, "Rounded": Rounded, "P": P, "Q": Q, "Holder": Holder, "ListP": List[P], "WithNT": WithNT, "Opaque": Opaque, "OptP": Optional[P]}
+TYPES = {"Node": Node, "Rounded": Rounded, "P": P, "Q": Q, "Holder": Holder, "ListP": List[P], "WithNT": WithNT, "Opaque": Opaque, "OptP": Optional[P], "View": View}
 VALUES = {"N2": lambda: Node(1, Node(2)), "R1": lambda: Rounded(1.5), "P0": lambda: P(), "P1": lambda: P(5, "s", 4), "Q1": lambda: Q(P(1), [P(2, None)]), "H1": lambda: Holder(Opaque(3), 1),
-          "W1": lambda: WithNT(NT(2))}
+          "W1": lambda: WithNT(NT(2)), "V1": lambda: View(x=1, y="s", some_name=2)}
 
 
 def obs(name, *args):
